@@ -30,9 +30,30 @@ func mayReturnTrue(in ssa.Instruction) bool {
 // ifOnValue finds the If instructions whose decomposed root is v (or an Extract of v).
 func ifsOnValue(f *ssa.Function, v ssa.Value) []branch {
 	var out []branch
+	// v may live in a local cell (variables captured by closures are Allocs): loads of a cell
+	// into which v is stored count as v
+	cells := map[ssa.Value]bool{}
+	if v != nil && v.Referrers() != nil {
+		for _, ref := range *v.Referrers() {
+			if st, ok := ref.(*ssa.Store); ok && st.Val == v {
+				if al, ok := st.Addr.(*ssa.Alloc); ok {
+					cells[al] = true
+				}
+			}
+		}
+	}
+	same := func(root ssa.Value) bool {
+		if root == v {
+			return true
+		}
+		if u, ok := root.(*ssa.UnOp); ok && u.Op == token.MUL && cells[u.X] {
+			return true
+		}
+		return false
+	}
 	for _, br := range branchesIn(f) {
 		root := stripValue(br.Info.Root)
-		if root == v {
+		if same(root) {
 			out = append(out, br)
 			continue
 		}
